@@ -48,6 +48,8 @@ def instances(tier, seed):
     add("sphere:twoPoint", ["sphere", "twoPoint"], "sphere", "twoPoint", 1, "frame")
     add("cylinder:shootKnots", ["cylinder", "shootKnots", str(nk)], "cylinder", "shootKnots", 1, "frame")
     add("cylinder:twoPoint", ["cylinder", "twoPoint"], "cylinder", "twoPoint", 3, "len")
+    for i in out:
+        i.setdefault("twin_timeout_ms", 10000)     # twins are model searches; an undecided twin is only a lost vacuity witness
     return out
 
 
